@@ -257,22 +257,31 @@ func w9CComp(codec string, chunks [][]byte) string {
 			stored = append(stored, chunks[i])
 		}
 	}
-	var items []string
+	type pr struct{ payload, raw []byte }
+	var pairs []pr
 	seen := map[string]bool{}
+	total := 0
 	for _, raw := range stored {
 		payload, err := decompressBlock(codec, raw)
 		if err != nil || seen[string(payload)] {
 			continue
 		}
 		seen[string(payload)] = true
-		if codec == "snappy" {
-			// the checksum behind the snappy stream is the model's to compute
-			items = append(items, cPair(w9CUB(payload), w9CUB(raw[:len(raw)-4])))
-			continue
-		}
-		items = append(items, cPair(w9CUB(payload), w9CUB(raw)))
+		pairs = append(pairs, pr{payload, raw})
+		total += len(payload)
 	}
-	if codec == "snappy" {
+	// small snappy histories: the table holds only golang/snappy's own output, the checksum
+	// behind it is the model's to compute (bit by bit: about a millisecond per hundred bytes)
+	modelCRC := codec == "snappy" && total <= snappyModelLimit
+	var items []string
+	for _, p := range pairs {
+		if modelCRC {
+			items = append(items, cPair(w9CUB(p.payload), w9CUB(p.raw[:len(p.raw)-4])))
+		} else {
+			items = append(items, cPair(w9CUB(p.payload), w9CUB(p.raw)))
+		}
+	}
+	if modelCRC {
 		return cApp("CSnappy", cList(items))
 	}
 	return cApp("CTable", cList(items))
